@@ -592,6 +592,20 @@ class MailboxWorld:
         r = self._code_api(cl, "input_code", cl.w.input_code)
         if not isinstance(r, Exception):
             cl.helper = r
+            # an application that asks to be told when the word list is there and, from inside that callback, uses the helper
+            # at once (a completion UI does exactly this); every other run - the legal calls it makes there must behave as
+            # they do anywhere else
+            if (self.seed + len(cl.name)) % 2 == 0 or getattr(self, "wordlist_callback", False):
+                def ready(_, cl=cl, h=r):
+                    for m, args in (("get_word_completions", ("",)), ("get_nameplate_completions", ("",))):
+                        res = cl.api("helper." + m + "@wordlist-callback", getattr(h, m), *args)
+                        cl.late.append(["helper." + m, self.stepno, len(res) if not isinstance(res, Exception) else type(res).__name__])
+                try:
+                    d = r.when_wordlist_is_available()
+                    d.addCallback(ready)
+                    d.addErrback(lambda f, cl=cl: cl.api_errors.append(("helper.when_wordlist_is_available", f.value)))
+                except Exception as e:
+                    cl.api_errors.append(("helper.when_wordlist_is_available", e))
 
     def _do_AppHelper(self, act):
         cl = self.clients[act["c"]]
